@@ -198,7 +198,9 @@ func ReadRequest(r io.Reader, tcpID *api.TcpID, counterPair *api.CounterPair, ca
 		mt.(messageType).decode(d, valueOf(deleteTopicsRequest))
 		payload = deleteTopicsRequest
 	default:
-		return apiKey, 0, fmt.Errorf("(Request) Not implemented: %s", apiKey)
+		// A known API whose layout is not implemented here: keep the header only (the payload
+		// stays nil) so that the response can be matched and skipped, and consume the message to
+		// its declared size below. Returning an error here ended the dissection of the connection.
 	}
 
 	request := &Request{
